@@ -75,6 +75,8 @@ class Interp:
     def _block(self, stmts, env):
         for i, st in enumerate(stmts):
             r = self._stmt(st, env, stmts[i + 1:])
+            if r is _FORKED:
+                return _NORET       # both continuations (including the rest of this block) were executed and merged
             if r is not _NORET:
                 return r
         return _NORET
@@ -115,7 +117,8 @@ class Interp:
             r1 = self._block(list(st.body) + list(rest), e1)
             r2 = self._block(list(st.orelse) + list(rest), e2)
             _merge_env(env, c, e1, e2)
-            return _merge(c, r1, r2)
+            m = _merge(c, r1, r2)
+            return _FORKED if m is _NORET else m
         if isinstance(st, ast.For):
             it = self._expr(st.iter, env)
             if not isinstance(it, range):
@@ -293,6 +296,7 @@ class Interp:
 
 
 _NORET = object()
+_FORKED = object()
 
 
 def _load(t):
